@@ -54,20 +54,19 @@ theorem rds_unroll (k : Nat) (inp out : Str) (h : inp ≠ []) : rds (k+1) inp ou
 
 /-- **navigate = RFC 5.2** for a reference without scheme and authority (path-absolute, path-relative
     with any mix of '.', '..' and empty segments, query-only, fragment-only or empty; `r.path`, `r.query`,
-    `r.fragment` are arbitrary texts), against any base with a host.
+    `r.fragment` are arbitrary texts), against any base with a host - for BOTH versions of the code
+    (`honour` = the repair of known finding C07-empty-query is present, see `URL.navigateWith`).
 
     `hcq`: the reference's query text is one that `parse_qsl`/`to_text` reproduce (`query_text_roundtrip`);
     keys may repeat, lack a value or have an empty one, in any order.  The base's `query_params` are arbitrary.
-
-    Full statement wanted: the same without `hq`.  It is FALSE for the code (`navigate_empty_query_defect`):
-    `hq` excludes exactly the region "empty path, present-but-empty query, base has a query" (`?`, `?#s`),
-    where boltons keeps the base query (known finding C07-empty-query).
+    `hq`: either the code has the repair, or the reference is outside the region "empty path,
+    present-but-empty query, base has a query" (`?`, `?#s`), where the unrepaired code keeps the base query.
     `hdf`: when the reference path is empty the RFC keeps the base path verbatim while the code
     normalises it, so the base path must then be dot-free (the statement demands a dot-free result). -/
-theorem navigate_eq_rfc_partial (b : URL) (r : Ref) (hb : AbsBase b) (hr : RelRef r)
+theorem navigateWith_eq_rfc (honour : Bool) (b : URL) (r : Ref) (hb : AbsBase b) (hr : RelRef r)
     (hdf : r.path ≠ [] ∨ DotFree b.parts) (hcq : CanonQ r.query)
-    (hq : ¬ (r.path = [] ∧ r.query = some [] ∧ queryText b.query ≠ [])) :
-    (b.navigate (URL.ofRelRef r)).toRef.canon = (resolve b.toRef r).canon := by
+    (hq : honour = true ∨ ¬ (r.path = [] ∧ r.query = some [] ∧ queryText b.query ≠ [])) :
+    (URL.navigateWith honour b (URL.ofRelRef r)).toRef.canon = (resolve b.toRef r).canon := by
   obtain ⟨segs, hsegs⟩ := hb.rooted
   have hns : ∀ s ∈ segs, NoSlash s := fun s hs => hb.noSlash s (by simp [hsegs, hs])
   have hbase := toRef_rooted b segs hb.host_ne hsegs
@@ -76,11 +75,11 @@ theorem navigate_eq_rfc_partial (b : URL) (r : Ref) (hb : AbsBase b) (hr : RelRe
     · exact Or.inl h
     · exact Or.inr ((dotFree_root segs).1 (hsegs ▸ h))
   have hpath := navigate_path_eq_rfc b segs r hr hsegs hns b.toRef (by simp [hbase]) (by simp [hbase]) hdf'
-  have hquery := relQuery_eq_rfc b b.toRef r hr (by simp [hbase]) hcq hq
-  rw [navigate_rel b r hb]
+  have hquery := relQuery_eq_rfc honour b b.toRef r hr (by simp [hbase]) hcq hq
+  rw [navigate_rel honour b r hb]
   have hN : (resolvePathParts (relParts b r)) = [] :: process [] (relSegs segs r) := by
     rw [relParts_eq b r segs hsegs, resolvePathParts_root]
-  rw [toRef_rooted (relResult b r) (process [] (relSegs segs r)) hb.host_ne hN]
+  rw [toRef_rooted (relResult honour b r) (process [] (relSegs segs r)) hb.host_ne hN]
   have hflat : flat (process [] (relSegs segs r)) = (resolve b.toRef r).path := by
     rw [← hpath, hN, joinSlash_root]
   simp only [Ref.canon, Ref.mk.injEq]
@@ -88,6 +87,31 @@ theorem navigate_eq_rfc_partial (b : URL) (r : Ref) (hb : AbsBase b) (hr : RelRe
   · rw [resolve_rel_scheme _ _ hr, hbase]; rfl
   · rw [resolve_rel_authority _ _ hr, hbase]; rfl
   · rw [resolve_rel_fragment _ _ hr]; exact dropEmpty_optOfStr_getD r.fragment
+
+/-- **the FULL statement for the repaired code** (fix 35ff68e: `if not query_params and dest._query is None`):
+    no restriction on the reference's query marker any more - `?` and `?#s` replace the base query. -/
+theorem navigate_eq_rfc_repaired (b : URL) (r : Ref) (hb : AbsBase b) (hr : RelRef r)
+    (hdf : r.path ≠ [] ∨ DotFree b.parts) (hcq : CanonQ r.query) :
+    (URL.navigateWith true b (URL.ofRelRef r)).toRef.canon = (resolve b.toRef r).canon :=
+  navigateWith_eq_rfc true b r hb hr hdf hcq (Or.inl rfl)
+
+/-- ... which is the statement about `URL.navigate` (the version the source under test implements, flag
+    regenerated on every run) as soon as that source has the repair -/
+theorem navigate_eq_rfc_of_repair (hfix : C07.Gen.navHonoursEmptyQuery = true) (b : URL) (r : Ref)
+    (hb : AbsBase b) (hr : RelRef r) (hdf : r.path ≠ [] ∨ DotFree b.parts) (hcq : CanonQ r.query) :
+    (b.navigate (URL.ofRelRef r)).toRef.canon = (resolve b.toRef r).canon :=
+  navigateWith_eq_rfc _ b r hb hr hdf hcq (Or.inl hfix)
+
+/-- the statement that holds for the code under test whichever version it is.
+
+    Full statement wanted: the same without `hq`.  It is FALSE for the unrepaired code
+    (`navigate_empty_query_defect`, known finding C07-empty-query) and TRUE for the repaired one
+    (`navigate_eq_rfc_repaired`). -/
+theorem navigate_eq_rfc_partial (b : URL) (r : Ref) (hb : AbsBase b) (hr : RelRef r)
+    (hdf : r.path ≠ [] ∨ DotFree b.parts) (hcq : CanonQ r.query)
+    (hq : ¬ (r.path = [] ∧ r.query = some [] ∧ queryText b.query ≠ [])) :
+    (b.navigate (URL.ofRelRef r)).toRef.canon = (resolve b.toRef r).canon :=
+  navigateWith_eq_rfc _ b r hb hr hdf hcq (Or.inr hq)
 
 /-- a base and a reference satisfying the hypotheses, with dots, empty segments, query and fragment -/
 def exBase : URL := URL.ofComponents (some "http".toList) true "u".toList [] "a".toList false 81
@@ -135,18 +159,18 @@ theorem navigate_renders_rfc_target_partial (b : URL) (r : Ref) (hb : AbsBase b)
       recompose (resolve b.toRef r) = recompose Y ∧ X.canon = Y.canon :=
   ⟨_, _, toText_eq_recompose _, rfl, navigate_eq_rfc_partial b r hb hr hdf hcq hq⟩
 
-/-- The unrestricted statement is false for the code: `URL('http://a/b?q').navigate('?')` keeps `?q`
+/-- The unrestricted statement is false for the unrepaired code: `URL('http://a/b?q').navigate('?')` keeps `?q`
     (RFC target: `http://a/b?`, i.e. no query parameters). -/
 theorem navigate_empty_query_defect :
     ¬ ∀ (b : URL) (r : Ref), AbsBase b → RelRef r → DotFree b.parts → CanonQ r.query →
-      (b.navigate (URL.ofRelRef r)).toRef.canon = (resolve b.toRef r).canon := by
+      (URL.navigateWith false b (URL.ofRelRef r)).toRef.canon = (resolve b.toRef r).canon := by
   intro h
   let b : URL := URL.ofComponents (some "http".toList) true [] [] "a".toList false 0 "/b".toList
     (some "q".toList) none
   let r : Ref := ⟨none, none, [], some [], none⟩
   have hb : AbsBase b := ⟨by decide, ⟨_, rfl⟩, by decide, by decide, by decide⟩
   have := h b r hb ⟨rfl, rfl⟩ (by decide) (by decide)
-  rw [navigate_rel b r hb] at this
+  rw [navigate_rel false b r hb] at this
   have hq := congrArg Ref.query this
   rw [toRef_rooted b _ (by decide) rfl] at hq
   revert hq
@@ -155,7 +179,18 @@ theorem navigate_empty_query_defect :
 /-- why: `URL('?')` and `URL('')` are the same object — in the excluded region `navigate` does what RFC 5.2
     prescribes for the same reference without its `?` (this is the known finding's trigger predicate) -/
 theorem empty_query_parses_as_no_query (r : Ref) :
-    URL.ofRelRef { r with query := some [] } = URL.ofRelRef { r with query := none } := rfl
+    { URL.ofRelRef { r with query := some [] } with hasQuery := false } = URL.ofRelRef { r with query := none } := rfl
+
+/-- ... and the unrepaired code never looks at the one bit that differs (any base, any non-replacing reference) -/
+theorem unrepaired_ignores_query_marker (b d : URL) (m : Bool) (h : ¬ (d.scheme ≠ [] ∧ d.host ≠ [])) :
+    URL.navigateWith false b { d with hasQuery := m } = URL.navigateWith false b d := by
+  cases d
+  simp only [URL.navigateWith, URL.pathText] at h ⊢
+  rw [if_neg h, if_neg h]
+  simp
+  congr 1
+
+example : ¬ ((URL.ofRelRef exRef).scheme ≠ [] ∧ (URL.ofRelRef exRef).host ≠ []) := by decide
 
 /-! ### the query parameters: every item, in order, repeated keys included -/
 
@@ -184,20 +219,32 @@ example : omdUpdate (parseQsl "a=0&b=1&a=2".toList) (parseQsl "a=7&c=8&a=9".toLi
     parseQsl "b=1&a=7&c=8&a=9".toList := by decide
 
 /-- The `query_params` of a navigation result are, item for item (order and repeated keys included), those of
-    the reference - or those of the base when the reference has neither a path nor parameters.  Any base, any
-    reference that is not a replacing absolute URL. -/
-theorem navigate_query_items (b dest : URL) (h : ¬ (dest.scheme ≠ [] ∧ dest.host ≠ [])) :
-    (b.navigate dest).query = if dest.pathText = [] ∧ dest.query = [] then b.query else dest.query := by
-  unfold URL.navigate
+    the reference - or those of the base when the reference has neither a path nor parameters (and, for the
+    repaired code, no query component at all).  Any base, any reference that is not a replacing absolute URL. -/
+theorem navigate_query_items (honour : Bool) (b dest : URL) (h : ¬ (dest.scheme ≠ [] ∧ dest.host ≠ [])) :
+    (URL.navigateWith honour b dest).query =
+      if dest.pathText = [] ∧ dest.query = [] ∧ ¬ (honour = true ∧ dest.hasQuery = true) then b.query
+      else dest.query := by
+  unfold URL.navigateWith
   rw [if_neg h]
   unfold URL.normalize
   simp only [if_true, omdUpdate_nil]
   by_cases hp : dest.pathText = [] <;> by_cases hq : dest.query = [] <;> simp [hp, hq]
 
+/-- the same for `URL.navigate` of the code under test, for a reference that has parameters, a path, or no
+    query component: the two versions agree there -/
+theorem navigate_query_items_current (b dest : URL) (h : ¬ (dest.scheme ≠ [] ∧ dest.host ≠ []))
+    (hm : dest.hasQuery = false ∨ dest.query ≠ [] ∨ dest.pathText ≠ []) :
+    (b.navigate dest).query = if dest.pathText = [] ∧ dest.query = [] then b.query else dest.query := by
+  rw [URL.navigate, navigate_query_items _ b dest h]
+  rcases hm with hm | hm | hm <;> simp [hm]
+
+example : (URL.ofRelRef exRefFrag).hasQuery = false ∧ (URL.ofRelRef exRefMulti).query ≠ [] := by decide
+
 /-- a reference that has its own scheme and host replaces the base entirely -/
 theorem navigate_absolute_replaces (b dest : URL) (hs : dest.scheme ≠ []) (hh : dest.host ≠ []) :
     b.navigate dest = dest := by
-  unfold URL.navigate; simp [hs, hh]
+  unfold URL.navigate URL.navigateWith; simp [hs, hh]
 
 /-- ... and that is the RFC target (5.2.2, "if defined(R.scheme)") when the reference's own path is
     rooted and dot-free (the code returns such a reference un-normalised) -/
@@ -227,7 +274,7 @@ theorem resolve_dot_free (parts : List Str) : DotFree (resolvePathParts parts) :
     replacing absolute URL -/
 theorem result_dot_free (b dest : URL) (h : ¬ (dest.scheme ≠ [] ∧ dest.host ≠ [])) :
     DotFree (b.navigate dest).parts := by
-  unfold URL.navigate
+  unfold URL.navigate URL.navigateWith
   rw [if_neg h]
   unfold URL.normalize
   simp only [if_true]
@@ -247,7 +294,7 @@ theorem never_above_root (b : URL) (r : Ref) (hb : AbsBase b) :
     ∃ out, (b.navigate (URL.ofRelRef r)).parts = [] :: out ∧
       (b.navigate (URL.ofRelRef r)).pathText = flat out := by
   obtain ⟨segs, hsegs⟩ := hb.rooted
-  rw [navigate_rel b r hb]
+  rw [URL.navigate, navigate_rel _ b r hb]
   refine ⟨process [] (relSegs segs r), ?_, ?_⟩
   · rw [relResult_parts, relParts_eq b r segs hsegs, resolvePathParts_root]
   · rw [URL.pathText, relResult_parts, relParts_eq b r segs hsegs, resolvePathParts_root, joinSlash_root]
@@ -257,27 +304,31 @@ theorem navigate_inherits_authority (b : URL) (r : Ref) (hb : AbsBase b) :
     let n := b.navigate (URL.ofRelRef r)
     n.scheme = b.scheme ∧ n.user = b.user ∧ n.pass = b.pass ∧ n.host = b.host ∧ n.v6 = b.v6 ∧
       n.port = b.port ∧ n.authorityText = b.authorityText := by
-  rw [navigate_rel b r hb]
+  rw [URL.navigate, navigate_rel _ b r hb]
   exact ⟨rfl, rfl, rfl, rfl, rfl, rfl, rfl⟩
 
 /-- the class of bases of the theorems above is closed under navigation, and every result is dot-free:
-    what makes chained navigation go through -/
-theorem navigate_closed (b : URL) (r : Ref) (hb : AbsBase b) :
-    AbsBase (b.navigate (URL.ofRelRef r)) ∧ DotFree (b.navigate (URL.ofRelRef r)).parts := by
+    what makes chained navigation go through (either version of the code) -/
+theorem navigateWith_closed (honour : Bool) (b : URL) (r : Ref) (hb : AbsBase b) :
+    AbsBase (URL.navigateWith honour b (URL.ofRelRef r)) ∧
+      DotFree (URL.navigateWith honour b (URL.ofRelRef r)).parts := by
   obtain ⟨segs, hsegs⟩ := hb.rooted
-  have hd := result_dot_free b (URL.ofRelRef r) (by simp [URL.ofRelRef, URL.ofComponents])
-  refine ⟨?_, hd⟩
-  rw [navigate_rel b r hb]
-  refine ⟨hb.host_ne, ⟨process [] (relSegs segs r), by rw [relResult_parts, relParts_eq b r segs hsegs, resolvePathParts_root]⟩, ?_,
-    hb.lowerScheme, hb.lowerHost⟩
-  intro s hs
-  rcases resolvePathParts_mem _ s hs with h | h
-  · rw [relParts_eq b r segs hsegs] at h
-    simp at h
-    rcases h with rfl | h
-    · simp [NoSlash]
-    · exact relSegs_noSlash segs r (fun x hx => hb.noSlash x (by simp [hsegs, hx])) s h
-  · subst h; simp [NoSlash]
+  rw [navigate_rel honour b r hb]
+  refine ⟨⟨hb.host_ne, ⟨process [] (relSegs segs r), by rw [relResult_parts, relParts_eq b r segs hsegs, resolvePathParts_root]⟩, ?_,
+    hb.lowerScheme, hb.lowerHost⟩, ?_⟩
+  · intro s hs
+    rcases resolvePathParts_mem _ s hs with h | h
+    · rw [relParts_eq b r segs hsegs] at h
+      simp at h
+      rcases h with rfl | h
+      · simp [NoSlash]
+      · exact relSegs_noSlash segs r (fun x hx => hb.noSlash x (by simp [hsegs, hx])) s h
+    · subst h; simp [NoSlash]
+  · rw [relResult_parts]; exact resolvePathParts_dotFree _
+
+theorem navigate_closed (b : URL) (r : Ref) (hb : AbsBase b) :
+    AbsBase (b.navigate (URL.ofRelRef r)) ∧ DotFree (b.navigate (URL.ofRelRef r)).parts :=
+  navigateWith_closed _ b r hb
 
 /-- on references of that kind the RFC transformation respects `canon` of the base -/
 theorem resolve_congr (X Y r : Ref) (hr : RelRef r) (h : X.canon = Y.canon) :
@@ -294,25 +345,31 @@ theorem resolve_congr (X Y r : Ref) (hr : RelRef r) (h : X.canon = Y.canon) :
   · simp only [h1, if_false]
 
 /-- **chained navigation = resolving step by step** (RFC 5.2 applied to each reference in turn, starting
-    from the base), for every sequence of references without scheme/authority.
-
-    `_partial`: each reference's query must not be present-but-empty (the defect of
+    from the base), for every sequence of references without scheme/authority, for either version of the code.
+    For the unrepaired one each reference's query must not be present-but-empty (the defect of
     `navigate_empty_query_defect` would otherwise enter at any step). -/
-theorem chained_eq_rfc_partial (rs : List Ref) : ∀ (b : URL) (X : Ref), AbsBase b → DotFree b.parts →
+theorem chainedWith_eq_rfc (honour : Bool) (rs : List Ref) : ∀ (b : URL) (X : Ref), AbsBase b → DotFree b.parts →
     X.canon = b.toRef.canon →
-    (∀ r ∈ rs, RelRef r ∧ r.query ≠ some [] ∧ CanonQ r.query) →
-    (b.navigateAll (rs.map URL.ofRelRef)).toRef.canon = (resolveAll X rs).canon := by
+    (∀ r ∈ rs, RelRef r ∧ (honour = true ∨ r.query ≠ some []) ∧ CanonQ r.query) →
+    (URL.navigateAllWith honour b (rs.map URL.ofRelRef)).toRef.canon = (resolveAll X rs).canon := by
   induction rs with
-  | nil => intro b X _ _ hX _; simpa [URL.navigateAll, resolveAll] using hX.symm
+  | nil => intro b X _ _ hX _; simpa [URL.navigateAllWith, resolveAll] using hX.symm
   | cons r rest ih =>
     intro b X hb hd hX hrs
     have hr := hrs r (by simp)
-    have hc := navigate_closed b r hb
-    have step := navigate_eq_rfc_partial b r hb hr.1 (Or.inr hd) hr.2.2 (fun h => hr.2.1 h.2.1)
-    have := ih (b.navigate (URL.ofRelRef r)) (resolve X r) hc.1 hc.2
+    have hc := navigateWith_closed honour b r hb
+    have step := navigateWith_eq_rfc honour b r hb hr.1 (Or.inr hd) hr.2.2
+      (hr.2.1.elim Or.inl (fun h => Or.inr (fun h' => h h'.2.1)))
+    have := ih (URL.navigateWith honour b (URL.ofRelRef r)) (resolve X r) hc.1 hc.2
       ((resolve_congr X b.toRef r hr.1 hX).trans step.symm)
       (fun r' hr' => hrs r' (by simp [hr']))
-    simpa [URL.navigateAll, resolveAll] using this
+    simpa [URL.navigateAllWith, resolveAll] using this
+
+/-- the code under test, whichever version: `_partial` (no present-but-empty query in the chain) -/
+theorem chained_eq_rfc_partial (rs : List Ref) (b : URL) (X : Ref) (hb : AbsBase b) (hd : DotFree b.parts)
+    (hX : X.canon = b.toRef.canon) (hrs : ∀ r ∈ rs, RelRef r ∧ r.query ≠ some [] ∧ CanonQ r.query) :
+    (b.navigateAll (rs.map URL.ofRelRef)).toRef.canon = (resolveAll X rs).canon :=
+  chainedWith_eq_rfc _ rs b X hb hd hX (fun r hr => ⟨(hrs r hr).1, Or.inr (hrs r hr).2.1, (hrs r hr).2.2⟩)
 
 /-- the chain theorem started at the base itself -/
 theorem chained_from_base_partial (b : URL) (rs : List Ref) (hb : AbsBase b) (hd : DotFree b.parts)
@@ -320,8 +377,288 @@ theorem chained_from_base_partial (b : URL) (rs : List Ref) (hb : AbsBase b) (hd
     (b.navigateAll (rs.map URL.ofRelRef)).toRef.canon = (resolveAll b.toRef rs).canon :=
   chained_eq_rfc_partial rs b b.toRef hb hd rfl hrs
 
+/-- **the FULL chain statement for the repaired code**: any references without scheme/authority, `?` included -/
+theorem chained_eq_rfc_repaired (b : URL) (rs : List Ref) (hb : AbsBase b) (hd : DotFree b.parts)
+    (hrs : ∀ r ∈ rs, RelRef r ∧ CanonQ r.query) :
+    (URL.navigateAllWith true b (rs.map URL.ofRelRef)).toRef.canon = (resolveAll b.toRef rs).canon :=
+  chainedWith_eq_rfc true rs b b.toRef hb hd rfl (fun r hr => ⟨(hrs r hr).1, Or.inl rfl, (hrs r hr).2⟩)
+
+example : ∀ r ∈ [exRef, ⟨none, none, [], some [], none⟩, exRefMulti, ⟨none, none, [], some [], some "s".toList⟩],
+    RelRef r ∧ CanonQ r.query := by decide
+example : (URL.navigateAllWith true exBaseMulti ([⟨none, none, [], some [], some "s".toList⟩].map URL.ofRelRef)).toText
+    = "http://a/b/c#s".toList := by decide
+example : (URL.navigateAllWith false exBaseMulti ([⟨none, none, [], some [], some "s".toList⟩].map URL.ofRelRef)).toText
+    = "http://a/b/c?tag=x&page=2&tag=y#s".toList := by decide
+
 example : DotFree exBase.parts ∧ (∀ r ∈ [exRef, ⟨none, none, "..//x".toList, none, none⟩, exRefMulti, exRefFrag],
     RelRef r ∧ r.query ≠ some [] ∧ CanonQ r.query) := by decide
+
+
+/-! ### two strengthenings: no condition on the base path, no condition on the query texts -/
+
+/-- the RFC target with RFC 3986 6.2.2.3 path normalisation applied (the statement's "normalized result") -/
+def Ref.normalized (t : Ref) : Ref := { t with path := removeDotSegments t.path }
+
+/-- **navigate = normalised RFC 5.2 target, for bases WITH dot segments too.**  `navigateWith_eq_rfc` needs a
+    dot-free base path when the reference path is empty (the RFC keeps the base path verbatim there, the code
+    normalises it).  Against the normalised target no such condition is needed, and for a reference with a path
+    normalising the target changes nothing (`resolve_target_path_normal`). -/
+theorem navigateWith_eq_normalized_rfc (honour : Bool) (b : URL) (r : Ref) (hb : AbsBase b) (hr : RelRef r)
+    (hcq : CanonQ r.query)
+    (hq : honour = true ∨ ¬ (r.path = [] ∧ r.query = some [] ∧ queryText b.query ≠ [])) :
+    (URL.navigateWith honour b (URL.ofRelRef r)).toRef.canon = (resolve b.toRef r).normalized.canon := by
+  obtain ⟨segs, hsegs⟩ := hb.rooted
+  have hns : ∀ s ∈ segs, NoSlash s := fun s hs => hb.noSlash s (by simp [hsegs, hs])
+  have hbase := toRef_rooted b segs hb.host_ne hsegs
+  have hpath := navigate_path_eq_normalized_rfc b segs r hr hsegs hns b.toRef (by simp [hbase]) (by simp [hbase])
+  have hquery := relQuery_eq_rfc honour b b.toRef r hr (by simp [hbase]) hcq hq
+  rw [navigate_rel honour b r hb]
+  have hN : (resolvePathParts (relParts b r)) = [] :: process [] (relSegs segs r) := by
+    rw [relParts_eq b r segs hsegs, resolvePathParts_root]
+  rw [toRef_rooted (relResult honour b r) (process [] (relSegs segs r)) hb.host_ne hN]
+  have hflat : flat (process [] (relSegs segs r)) = removeDotSegments (resolve b.toRef r).path := by
+    rw [← hpath, hN, joinSlash_root]
+  simp only [Ref.canon, Ref.normalized, Ref.mk.injEq]
+  refine ⟨?_, ?_, hflat, hquery, ?_⟩
+  · rw [resolve_rel_scheme _ _ hr, hbase]; rfl
+  · rw [resolve_rel_authority _ _ hr, hbase]; rfl
+  · rw [resolve_rel_fragment _ _ hr]; exact dropEmpty_optOfStr_getD r.fragment
+
+/-- for a reference with a path (or a dot-free base path) the RFC target is already normalised: removing dot
+    segments once more changes nothing (RFC 3986 5.2.4 is idempotent on what 5.2.2 produces) -/
+theorem resolve_target_path_normal (b : URL) (r : Ref) (hb : AbsBase b) (hr : RelRef r)
+    (hdf : r.path ≠ [] ∨ DotFree b.parts) :
+    (resolve b.toRef r).normalized = resolve b.toRef r := by
+  obtain ⟨segs, hsegs⟩ := hb.rooted
+  have hns : ∀ s ∈ segs, NoSlash s := fun s hs => hb.noSlash s (by simp [hsegs, hs])
+  have hbase := toRef_rooted b segs hb.host_ne hsegs
+  have hdf' : r.path ≠ [] ∨ DotFree segs := by
+    rcases hdf with h | h
+    · exact Or.inl h
+    · exact Or.inr ((dotFree_root segs).1 (hsegs ▸ h))
+  have h1 := navigate_path_eq_rfc b segs r hr hsegs hns b.toRef (by simp [hbase]) (by simp [hbase]) hdf'
+  have h2 := navigate_path_eq_normalized_rfc b segs r hr hsegs hns b.toRef (by simp [hbase]) (by simp [hbase])
+  unfold Ref.normalized
+  rw [← h2, h1]
+
+/-- a base with dot segments in its path and an empty / fragment-only / query-only reference -/
+def exBaseDots : URL := URL.ofComponents (some "http".toList) true [] [] "a".toList false 0
+  "/b/../c/./d".toList (some "q".toList) none
+example : AbsBase exBaseDots ∧ ¬ DotFree exBaseDots.parts ∧ RelRef exRefFrag ∧ CanonQ exRefFrag.query :=
+  ⟨⟨by decide, ⟨_, rfl⟩, by decide, by decide, by decide⟩, by decide, by decide, by decide⟩
+example : (URL.navigateWith true exBaseDots (URL.ofRelRef exRefFrag)).toText = "http://a/c/d?q#sec".toList := by decide
+
+/-- **the query PARAMETERS of the result are the parameters of the RFC target's query, for ANY query texts** (`;`
+    separators, empty pairs, pairs without `=` ... - no `CanonQ`): `bq` is the query text the base was parsed from
+    (or `none`), the reference's query text is arbitrary.  For the unrepaired code the reference must not be a
+    path-less one whose present query holds no parameter (`?`, `?&`, `?;`) against a base with parameters. -/
+theorem navigateWith_params_eq_rfc (honour : Bool) (b : URL) (bq : Option Str) (r : Ref) (hb : AbsBase b)
+    (hr : RelRef r) (hbq : b.query = parseQsl (bq.getD []))
+    (hq : honour = true ∨
+      ¬ (r.path = [] ∧ r.query.isSome = true ∧ parseQsl (r.query.getD []) = [] ∧ b.query ≠ [])) :
+    (URL.navigateWith honour b (URL.ofRelRef r)).query
+      = parseQsl ((resolve { b.toRef with query := bq } r).query.getD []) := by
+  rw [navigate_rel honour b r hb, relResult_query, resolve_rel_query _ r hr]
+  unfold relQuery
+  by_cases h1 : r.path = []
+  · simp only [h1, if_true]
+    cases hrq : r.query with
+    | none => simp [hbq]
+    | some q =>
+      simp only [Option.getD_some, Option.isSome_some, if_true]
+      by_cases hp : parseQsl q = []
+      · rcases hq with hh | hq
+        · simp [hh, hp]
+        · have hbe : b.query = [] := by
+            by_cases hbe : b.query = []
+            · exact hbe
+            · exact absurd ⟨h1, by simp [hrq], by simpa [hrq] using hp, hbe⟩ hq
+          cases honour <;> simp [hp, hbe]
+      · simp [hp]
+  · simp [h1]
+
+/-- a base parsed from `?a=1;b=2&&c` and references with `;`, empty pairs and a bare `?` -/
+def exBaseSemi : URL := URL.ofComponents (some "http".toList) true [] [] "a".toList false 0
+  "/b".toList (some "a=1;b=2&&c".toList) none
+example : AbsBase exBaseSemi ∧ exBaseSemi.query = parseQsl ((some "a=1;b=2&&c".toList).getD []) :=
+  ⟨⟨by decide, ⟨_, rfl⟩, by decide, by decide, by decide⟩, rfl⟩
+example : (URL.navigateWith true exBaseSemi (URL.ofRelRef ⟨none, none, "x".toList, some "&k;;j=&".toList, none⟩)).query
+    = [("k".toList, none), ("j".toList, some [])] := by decide
+example : (URL.navigateWith true exBaseSemi (URL.ofRelRef ⟨none, none, [], some ";".toList, none⟩)).query = [] ∧
+    (URL.navigateWith false exBaseSemi (URL.ofRelRef ⟨none, none, [], some ";".toList, none⟩)).query
+      = exBaseSemi.query := by decide
+
+/-! ### the reference as a TEXT (the string argument of `navigate`) -/
+
+/-- `t` is, by RFC 3986 Appendix B (`rfcParse`, Spec), a reference without scheme and without authority -/
+def RelText (t : Str) : Prop := (rfcParse t).scheme = none ∧ (rfcParse t).authority = none
+
+instance (t : Str) : Decidable (RelText t) := by unfold RelText; infer_instance
+
+/-- for such a text the Appendix B components are the ones `URL(text)` finds in the model (`refOfText`: the
+    fragment starts at the first `#`, the query at the first `?` before it), and they recompose to the text -/
+theorem ref_text_parse (t : Str) (h : RelText t) :
+    rfcParse t = refOfText t ∧ recompose (rfcParse t) = t ∧ RelRef (rfcParse t) := by
+  have e := rfcParse_rel t h.1 h.2
+  exact ⟨e, by rw [e]; exact recompose_refOfText t, h⟩
+
+example : RelText "../g;x=1/./y?k=1&k#frag?x".toList ∧ ¬ RelText "g:h".toList ∧ ¬ RelText "//g".toList ∧
+    RelText "./g:h".toList ∧ RelText "?#".toList ∧ RelText [] := by decide
+example : rfcParse "http://u@h:1/p?q#f".toList =
+    ⟨some "http".toList, some "u@h:1".toList, "/p".toList, some "q".toList, some "f".toList⟩ := by decide
+
+/-- **navigate(text) = RFC 5.2 on the text's Appendix B components**, repaired code, every reference text without
+    scheme and authority: path-absolute, path-relative with any mix of '.', '..' and empty segments, query-only
+    (`?`, `?y`), fragment-only, empty -/
+theorem navigate_text_eq_rfc_repaired (b : URL) (t : Str) (hb : AbsBase b) (ht : RelText t)
+    (hdf : (rfcParse t).path ≠ [] ∨ DotFree b.parts) (hcq : CanonQ (rfcParse t).query) :
+    (URL.navigateWith true b (URL.ofText t)).toRef.canon = (resolve b.toRef (rfcParse t)).canon := by
+  have e := (ref_text_parse t ht).1
+  unfold URL.ofText
+  rw [← e]
+  exact navigate_eq_rfc_repaired b (rfcParse t) hb ht hdf hcq
+
+/-- ... and for the code under test whichever version it is, outside the `?`-region -/
+theorem navigate_text_eq_rfc_partial (b : URL) (t : Str) (hb : AbsBase b) (ht : RelText t)
+    (hdf : (rfcParse t).path ≠ [] ∨ DotFree b.parts) (hcq : CanonQ (rfcParse t).query)
+    (hq : ¬ ((rfcParse t).path = [] ∧ (rfcParse t).query = some [] ∧ queryText b.query ≠ [])) :
+    (b.navigate (URL.ofText t)).toRef.canon = (resolve b.toRef (rfcParse t)).canon := by
+  have e := (ref_text_parse t ht).1
+  unfold URL.ofText
+  rw [← e]
+  exact navigate_eq_rfc_partial b (rfcParse t) hb ht hdf hcq hq
+
+example : RelText ".././/g/.?y#".toList ∧ CanonQ (rfcParse ".././/g/.?y#".toList).query ∧
+    (rfcParse ".././/g/.?y#".toList).path ≠ [] := by decide
+example : (URL.navigateWith true exBase (URL.ofText ".././/g/.?y#".toList)).toText = "http://u@a:81/b//g/?y".toList := by
+  decide
+example : (URL.navigateWith true exBaseMulti (URL.ofText "?".toList)).toText = "http://a/b/c".toList ∧
+    (URL.navigateWith false exBaseMulti (URL.ofText "?".toList)).toText = "http://a/b/c?tag=x&page=2&tag=y".toList := by
+  decide
+
+/-! ### the case of the base's scheme and host does not matter (RFC 3986 6.2.2.1) -/
+
+/-- the base with scheme and host in lower case -/
+def URL.lowerCase (b : URL) : URL := { b with scheme := lower b.scheme, host := lower b.host }
+
+theorem lower_eq_nil (s : Str) : lower s = [] ↔ s = [] := by simp [lower]
+
+/-- navigating from a base gives the same result as navigating from the same base written in lower case, for
+    every reference without scheme and host of its own -/
+theorem navigate_base_case (honour : Bool) (b dest : URL) (hs : dest.scheme = []) (hh : dest.host = []) :
+    URL.navigateWith honour b dest = URL.navigateWith honour b.lowerCase dest := by
+  have hn : ¬ (dest.scheme ≠ [] ∧ dest.host ≠ []) := by simp [hs]
+  unfold URL.navigateWith
+  rw [if_neg hn, if_neg hn]
+  simp [URL.normalize, URL.lowerCase, orStr, hs, hh, lower_idem, lower_eq_nil]
+
+/-- a base with a host and a rooted path of slash-free segments, in ANY case -/
+structure HostBase (b : URL) : Prop where
+  host_ne : b.host ≠ []
+  rooted : ∃ segs, b.parts = [] :: segs
+  noSlash : ∀ s ∈ b.parts, NoSlash s
+
+theorem HostBase.lower {b : URL} (hb : HostBase b) : AbsBase b.lowerCase :=
+  ⟨by simpa [URL.lowerCase, lower_eq_nil] using hb.host_ne, hb.rooted, hb.noSlash,
+    by simp [URL.lowerCase, lower_idem], by simp [URL.lowerCase, lower_idem]⟩
+
+/-- **navigate = RFC 5.2 against the case-normalised base, for bases in any case** (`HTTP://A.Example/B` …):
+    the lower-case hypotheses of `AbsBase` are not needed -/
+theorem navigateWith_eq_rfc_anycase (honour : Bool) (b : URL) (r : Ref) (hb : HostBase b) (hr : RelRef r)
+    (hdf : r.path ≠ [] ∨ DotFree b.parts) (hcq : CanonQ r.query)
+    (hq : honour = true ∨ ¬ (r.path = [] ∧ r.query = some [] ∧ queryText b.query ≠ [])) :
+    (URL.navigateWith honour b (URL.ofRelRef r)).toRef.canon = (resolve b.lowerCase.toRef r).canon := by
+  rw [navigate_base_case honour b (URL.ofRelRef r) (by simp [URL.ofRelRef, URL.ofComponents])
+    (by simp [URL.ofRelRef, URL.ofComponents])]
+  exact navigateWith_eq_rfc honour b.lowerCase r hb.lower hr hdf hcq hq
+
+/-- a base in mixed case -/
+def exBaseCase : URL := URL.ofComponents (some "HTtp".toList) true "Us".toList [] "A.Example".toList false 0
+  "/B/c".toList none none
+example : HostBase exBaseCase ∧ ¬ AbsBase exBaseCase := by
+  refine ⟨⟨by decide, ⟨_, rfl⟩, by decide⟩, fun h => ?_⟩
+  exact absurd h.lowerScheme (by decide)
+example : (URL.navigateWith true exBaseCase (URL.ofText "../D?k".toList)).toText = "http://Us@a.example/D?k".toList := by
+  decide
+
+/-- **chained navigation through reference TEXTS = resolving the texts step by step** (repaired code): every text
+    is parsed by Appendix B (`rfcParse`) on the RFC side and by `URL(text)` on the code side -/
+theorem chained_texts_eq_rfc_repaired (b : URL) (ts : List Str) (hb : AbsBase b) (hd : DotFree b.parts)
+    (hts : ∀ t ∈ ts, RelText t ∧ CanonQ (rfcParse t).query) :
+    (URL.navigateAllWith true b (ts.map URL.ofText)).toRef.canon = (resolveAll b.toRef (ts.map rfcParse)).canon := by
+  have e : ts.map URL.ofText = (ts.map rfcParse).map URL.ofRelRef := by
+    rw [List.map_map]
+    apply List.map_congr_left
+    intro t ht
+    simp only [Function.comp, URL.ofText]
+    rw [(ref_text_parse t (hts t ht).1).1]
+  rw [e]
+  apply chained_eq_rfc_repaired b (ts.map rfcParse) hb hd
+  intro r hr
+  obtain ⟨t, ht, rfl⟩ := List.mem_map.1 hr
+  exact ⟨(hts t ht).1, (hts t ht).2⟩
+
+example : ∀ t ∈ ["../x/./y?k=1&k".toList, "?".toList, "#top".toList, "..//z".toList],
+    RelText t ∧ CanonQ (rfcParse t).query := by decide
+example : (URL.navigateAllWith true exBaseMulti
+      (["../x/./y?k=1&k".toList, "?".toList, "#top".toList, "..//z".toList].map URL.ofText)).toText
+    = "http://a//z".toList := by decide
+
+/-! ### navigate's glue: which component comes from where (any base, any non-replacing reference, either version) -/
+
+/-- the fragment is never inherited: the result carries the reference's fragment (none if it has none) -/
+theorem navigate_fragment (honour : Bool) (b dest : URL) (h : ¬ (dest.scheme ≠ [] ∧ dest.host ≠ [])) :
+    (URL.navigateWith honour b dest).fragment = dest.fragment := by
+  unfold URL.navigateWith
+  rw [if_neg h]
+  simp [URL.normalize]
+
+/-- scheme / userinfo / host / port: the reference's own value where it has one (`dest.x or self.x`), else the
+    base's; scheme and host then lower-cased by the final `normalize()`; the address family follows the host.
+    This covers scheme-relative references (`//host/p`) and references passed as edited `URL` objects too. -/
+theorem navigate_authority_fields (honour : Bool) (b dest : URL) (h : ¬ (dest.scheme ≠ [] ∧ dest.host ≠ [])) :
+    let n := URL.navigateWith honour b dest
+    n.scheme = lower (orStr dest.scheme b.scheme) ∧ n.host = lower (orStr dest.host b.host) ∧
+      n.user = orStr dest.user b.user ∧ n.pass = orStr dest.pass b.pass ∧
+      n.port = (if dest.port ≠ 0 then dest.port else b.port) ∧
+      n.v6 = (if dest.host ≠ [] then dest.v6 else b.v6) ∧ n.netlocSep = false ∧ n.hasQuery = false := by
+  unfold URL.navigateWith
+  rw [if_neg h]
+  simp [URL.normalize]
+
+/-- a scheme-relative reference `//h:99/p/../q` against `exBase` (`http://u@a:81/b/c/d;p?q`): host and port of the
+    reference, scheme AND userinfo of the base (boltons keeps `u@`; RFC 3986 would drop it - references with an
+    authority are outside the statement), path and query of the reference -/
+def exSchemeRel : URL := URL.ofComponents none true [] [] "H".toList false 99 "/p/../q".toList none none
+example : ¬ (exSchemeRel.scheme ≠ [] ∧ exSchemeRel.host ≠ []) := by decide
+example : (URL.navigateWith true exBase exSchemeRel).toText = "http://u@h:99/q".toList ∧
+    (URL.navigateWith false exBase exSchemeRel).toText = "http://u@h:99/q".toList := by decide
+
+/-- `normalize()` case rules: scheme and host are lower-cased exactly when `with_case`; userinfo, port, query and
+    fragment are never touched; the path is dot-resolved either way -/
+theorem normalize_fields (u : URL) (c : Bool) :
+    (u.normalize c).scheme = (if c then lower u.scheme else u.scheme) ∧
+    (u.normalize c).host = (if c then lower u.host else u.host) ∧
+    (u.normalize c).parts = resolvePathParts u.parts ∧
+    (u.normalize c).user = u.user ∧ (u.normalize c).pass = u.pass ∧ (u.normalize c).port = u.port ∧
+    (u.normalize c).query = u.query ∧ (u.normalize c).fragment = u.fragment ∧ (u.normalize c).v6 = u.v6 := by
+  cases c <;> simp [URL.normalize]
+
+/-- the result of `navigate` has a lower-case scheme and host (`normalize()` is its last step) -/
+theorem navigate_result_lowercase (honour : Bool) (b dest : URL) (h : ¬ (dest.scheme ≠ [] ∧ dest.host ≠ [])) :
+    lower (URL.navigateWith honour b dest).scheme = (URL.navigateWith honour b dest).scheme ∧
+    lower (URL.navigateWith honour b dest).host = (URL.navigateWith honour b dest).host := by
+  have := navigate_authority_fields honour b dest h
+  simp only at this
+  rw [this.1, this.2.1]
+  exact ⟨lower_idem _, lower_idem _⟩
+
+/-- a text and the `URL` parsed from it are the same reference (the model's `dest` IS `URL(text)`): what differs
+    between the two call styles is only whether a replacing absolute reference is returned as the parsed object or
+    as a copy made through `to_text()`; for a dest with a host that copy prints the same text -/
+theorem navigate_replacing_text (b dest : URL) (hs : dest.scheme ≠ []) (hh : dest.host ≠ []) :
+    (b.navigate dest).toText = dest.toText := by
+  rw [navigate_absolute_replaces b dest hs hh]
 
 /-- `normalize()` is idempotent, with or without case normalisation, for every URL object -/
 theorem normalize_idempotent (u : URL) (c : Bool) : (u.normalize c).normalize c = u.normalize c := by
@@ -332,7 +669,7 @@ theorem normalize_idempotent (u : URL) (c : Bool) : (u.normalize c).normalize c 
 /-- `navigate` ends with `normalize()`, so normalising a navigation result changes nothing -/
 theorem navigate_result_normal (b dest : URL) (h : ¬ (dest.scheme ≠ [] ∧ dest.host ≠ [])) :
     (b.navigate dest).normalize = b.navigate dest := by
-  unfold URL.navigate
+  unfold URL.navigate URL.navigateWith
   rw [if_neg h]
   exact normalize_idempotent _ true
 
